@@ -126,6 +126,18 @@ impl VirtualHandler {
     }
 }
 
+static SESSION_COUNT: std::sync::atomic::AtomicUsize = std::sync::atomic::AtomicUsize::new(0);
+
+/// Called by the handler's event loop before it waits for the next event.
+pub(crate) fn publish_session_count(n: usize) {
+    SESSION_COUNT.store(n, Ordering::Relaxed);
+}
+
+/// The number of entries in the handler's session cache when its event loop last went idle.
+pub fn session_count() -> usize {
+    SESSION_COUNT.load(Ordering::Relaxed)
+}
+
 /// The number of sessions the handler holds, as published in its metrics.
 pub fn active_sessions() -> usize {
     METRICS.active_sessions.load(Ordering::Relaxed)
